@@ -103,7 +103,7 @@ var dateRangeCompareMatrix = map[string]DateRangeComparison{
 	"AA": DateRangeComparisonEntirelyAfter,
 }
 
-func compareDatesForLetter(value, start, end Date) string {
+func compareDatesForLetter(value, start, end Date, isEnd bool) string {
 	// We only deal with whole days. This is needed for dates that are ending
 	// dates so we don't get the 23:59:59.999 part.
 	valueTime := value.Time().Truncate(24 * time.Hour)
@@ -111,6 +111,12 @@ func compareDatesForLetter(value, start, end Date) string {
 	endTime := end.Time().Truncate(24 * time.Hour)
 
 	switch {
+	case isEnd && valueTime.Equal(endTime):
+		// The upper boundary of a range that finishes on the last day of the
+		// other range is at its end, even when the other range is a single
+		// day (so its start and end are the same day).
+		return "E"
+
 	case valueTime.Equal(startTime):
 		return "e"
 
@@ -129,8 +135,8 @@ func compareDatesForLetter(value, start, end Date) string {
 }
 
 func (dr DateRange) Compare(dr2 DateRange) DateRangeComparison {
-	start := compareDatesForLetter(dr.start, dr2.start, dr2.end)
-	end := compareDatesForLetter(dr.end, dr2.start, dr2.end)
+	start := compareDatesForLetter(dr.start, dr2.start, dr2.end, false)
+	end := compareDatesForLetter(dr.end, dr2.start, dr2.end, true)
 
 	return dateRangeCompareMatrix[start+end]
 }
